@@ -31,8 +31,10 @@ CLAIMED = {
  'C14': {
   'text': 'Verus proves on the real Display bodies that the arguments handed to write! denote the value: the printed UTC offset (sign character, hours, minutes, seconds) equals the stored offset '
           'for every i32 offset; each of the 32 arms of the days-and-time duration printer and the 4 arms of the years-and-months printer prints exactly the non-zero components of the '
-          'normalised decomposition with the right sign (PT36H -> P1DT12H, P14M -> P1Y2M); FeelZone::new and is_valid_time meet their definitions. Partial: literal acceptance (regex), '
-          'fraction parsing (f64) and the formatter itself are not decided.',
+          'normalised decomposition with the right sign (PT36H -> P1DT12H, P14M -> P1Y2M); FeelZone::new and is_valid_time meet their definitions; and on the real literal parsers '
+          '(date, time, date and time, both durations) that the captured fields denote exactly what is written: signed year / month / day forming a calendar date, hour < 24 and minute / second < 60, '
+          'the fraction in nanoseconds, the zone of the suffix, duration components of any size within u64 with the sign applied to the whole length, invalid when a component does not fit. '
+          'Partial: what the regular expressions capture, the digit-by-digit fraction reader and the formatter itself are not decided (BOUNDED temporal-literals-and-zones looks at them).',
   'design_ref': 'DESIGN.md section 5 (C14)',
   'note': 'Trusted: Verus/Z3; core::fmt renders the constrained arguments as documented (R5 sinks, slots derived mechanically from the format literal); nanoseconds_to_string opaque.',
  },
